@@ -92,6 +92,46 @@ Qed.
 Lemma complete_declared : forall g u v b, vphys v = Some b -> complete g u v = Some b.
 Proof. intros. unfold complete. now rewrite H. Qed.
 
+(* ---------------------------------------------------------------- bounds of the elements *)
+Lemma elem_decl_in : forall l i b, NoDup (map fst l) -> In (i, b) l -> elem_decl l i = Some b.
+Proof.
+  induction l as [|[j c] l IH]; intros i b ND Hin; [contradiction|]. unfold elem_decl. simpl.
+  inversion ND; subst. destruct Hin as [E|Hin].
+  - inversion E; subst. now rewrite Nat.eqb_refl.
+  - destruct (Nat.eqb j i) eqn:J.
+    + apply Nat.eqb_eq in J. subst. exfalso. apply H1. change i with (fst (i, b)). now apply in_map.
+    + now apply IH.
+Qed.
+
+Lemma elem_decl_none : forall l i, (forall b, ~ In (i, b) l) -> elem_decl l i = None.
+Proof.
+  induction l as [|[j c] l IH]; intros i H; [reflexivity|]. unfold elem_decl. simpl.
+  destruct (Nat.eqb j i) eqn:J.
+  - apply Nat.eqb_eq in J. subst. exfalso. apply (H c). now left.
+  - apply IH. intros b Hb. apply (H b). now right.
+Qed.
+
+Lemma elem_bounds_ok : forall v i, bounds_wf v -> elem_bounds_spec v i (elem_bounds v i).
+Proof.
+  intros v i ([W|W] & ND & _ & _); unfold elem_bounds_spec, elem_bounds; rewrite W.
+  - repeat split; [discriminate | intros; now apply elem_decl_in | intros _ H; now apply elem_decl_none].
+  - destruct (vbounds v); simpl; repeat split; try congruence; try contradiction; reflexivity.
+Qed.
+
+Lemma elem_bounds_spec_det : forall v i a b, bounds_wf v -> elem_bounds_spec v i a -> elem_bounds_spec v i b -> a = b.
+Proof.
+  intros v i a b W (A1 & A2 & A3) (B1 & B2 & B3). destruct (vbounds v) as [c|] eqn:V.
+  - now rewrite (A1 c), (B1 c).
+  - destruct (elem_decl (vebounds v) i) as [c|] eqn:E.
+    + assert (Hin : In (i, c) (vebounds v)).
+      { unfold elem_decl in E. destruct (find _ (vebounds v)) as [[j c']|] eqn:F; [|discriminate]. apply find_some in F.
+        destruct F as [F1 F2]. simpl in *. apply Nat.eqb_eq in F2. inversion E. now subst. }
+      now rewrite (A2 c), (B2 c).
+    + assert (Hn : forall c, ~ In (i, c) (vebounds v)).
+      { intros c Hin. destruct W as (_ & ND & _). rewrite (elem_decl_in _ _ _ ND Hin) in E. discriminate. }
+      now rewrite A3, B3.
+Qed.
+
 (* ---------------------------------------------------------------- one variable *)
 Lemma meta_names : forall vr g u c v, faithful_var_names v (meta vr g u c v).
 Proof. intros. unfold faithful_var_names, meta; simpl. repeat split. apply ext_name_ok. Qed.
@@ -108,24 +148,34 @@ Proof. intros. unfold hide_arrays. rewrite H. simpl. now rewrite andb_false_r. Q
 Lemma hide_off : forall vr v b, array_bounds_unreadable vr = false -> hide_arrays vr v b = b.
 Proof. intros. unfold hide_arrays. now rewrite H. Qed.
 
-Lemma meta_faithful_scalar : forall vr g u v, vsize v = 1 -> faithful_var g u v (meta vr g u true v).
+Lemma nth_map_seq : forall (A : Type) (f : nat -> A) n i d, i < n -> nth i (map f (seq 0 n)) d = f i.
 Proof.
-  intros. unfold faithful_var, meta; simpl. rewrite !hide_scalar by assumption.
-  repeat split; auto using ext_name_ok, complete_ok.
+  intros A f n i d H. rewrite (nth_indep _ d (f 0)) by now rewrite map_length, seq_length.
+  rewrite (map_nth f (seq 0 n) 0 i). now rewrite seq_nth.
 Qed.
 
-Lemma meta_faithful : forall vr g u v, array_bounds_unreadable vr = false -> faithful_var g u v (meta vr g u true v).
+Lemma meta_faithful_gen : forall vr g u v,
+  (forall b, hide_arrays vr v b = b) -> bounds_wf v -> faithful_var g u v (meta vr g u true v).
 Proof.
-  intros. unfold faithful_var, meta; simpl. rewrite !hide_off by assumption.
-  repeat split; auto using ext_name_ok, complete_ok.
+  intros vr g u v H W. unfold faithful_var, meta; simpl. rewrite !map_length, !seq_length.
+  split; [apply ext_name_ok|]. do 3 (split; [reflexivity|]).
+  split; [intros i Hi; rewrite nth_map_seq, H by assumption; now apply elem_bounds_ok|].
+  split; [reflexivity|]. split; [|reflexivity].
+  intros i Hi. rewrite nth_map_seq, H by assumption. apply complete_ok.
 Qed.
+
+Lemma meta_faithful_scalar : forall vr g u v, vsize v = 1 -> bounds_wf v -> faithful_var g u v (meta vr g u true v).
+Proof. intros. apply meta_faithful_gen; auto. intros. now apply hide_scalar. Qed.
+
+Lemma meta_faithful : forall vr g u v, array_bounds_unreadable vr = false -> bounds_wf v -> faithful_var g u v (meta vr g u true v).
+Proof. intros. apply meta_faithful_gen; auto. intros. now apply hide_off. Qed.
 
 Lemma meta_input_faithful_scalar : forall vr g u v,
-  mp_phys_needs_bounds vr = false -> vsize v = 1 -> faithful_var g u v (meta_input vr g u v).
+  mp_phys_needs_bounds vr = false -> vsize v = 1 -> bounds_wf v -> faithful_var g u v (meta_input vr g u v).
 Proof. intros. unfold meta_input. rewrite H. now apply meta_faithful_scalar. Qed.
 
 Lemma Forall2_map_r : forall (A B : Type) (P : A -> B -> Prop) (f : A -> B) l,
-  (forall a, P a (f a)) -> Forall2 P l (map f l).
+  (forall a, In a l -> P a (f a)) -> Forall2 P l (map f l).
 Proof. induction l; simpl; intros; constructor; auto. Qed.
 
 (* ---------------------------------------------------------------- hypotheses *)
@@ -181,116 +231,131 @@ Proof.
   induction l; simpl; auto. unfold expanded_types in *. simpl. rewrite app_length, repeat_length, IHl. reflexivity.
 Qed.
 
-Lemma expanded_types_codes : forall vr g u c l x,
-  In x (expanded_types (map (meta vr g u c) l)) -> exists v, In v l /\ x = type_code (vty v).
-Proof.
-  induction l; simpl; intros x H; [contradiction|]. unfold expanded_types in H. simpl in H. apply in_app_or in H.
-  destruct H as [H|H].
-  - apply repeat_spec in H. exists a. auto.
-  - destruct (IHl _ H) as (v & Hv & E). exists v. auto.
-Qed.
-
 (* ---------------------------------------------------------------- the whole table, repaired generator *)
-Lemma faithful_repaired : forall g d, faithful g d (symbols repaired g d).
+Definition decl_wf (d : decl) : Prop := forall v, In v (all_vars d) -> bounds_wf v.
+
+Lemma plain_wf : forall n g e t def, bounds_wf (plain n g e t def).
+Proof. intros. unfold bounds_wf, plain; simpl. split; [now left|]. split; [constructor|]. split; [reflexivity|]. intros i b []. Qed.
+
+Lemma in_all_vars_mp : forall d v, dkind d = MaterialProperty -> In v (dinputs d) \/ In v (dparams d) -> In v (all_vars d).
+Proof. intros d v K H. unfold all_vars. rewrite K. right. apply in_or_app. tauto. Qed.
+
+Lemma in_all_vars_b : forall d v, dkind d = Behaviour ->
+  In v (dsl_mps (ddsl d) (dmps d)) \/ In v (dsl_svs (ddsl d) (dsvs d) ++ dasvs d) \/ In v (desvs d) \/
+  In v (dsl_params (ddsl d) (dparams d)) -> In v (all_vars d).
 Proof.
-  intros g d. unfold faithful, symbols.
-  assert (F : forall l, Forall2 (faithful_var g (dunit d)) l (map (meta repaired g (dunit d) true) l))
-    by (intros l; apply Forall2_map_r; intros v; now apply meta_faithful).
-  destruct (dkind d); simpl.
-  - split; [|reflexivity]. split; [reflexivity|]. split; [apply ext_name_ok|]. split; [|apply F].
-    apply Forall2_map_r. intros v. unfold meta_input; simpl. now apply meta_faithful.
-  - split; [|reflexivity]. split; [reflexivity|]. split; [apply hyps_ok|]. split; [apply F|]. split; [apply F|].
-    split; [apply F|]. exists (map (meta repaired g (dunit d) true) (dparams d)). split; [apply map_app|apply F].
+  intros d v K H. unfold all_vars. rewrite K. rewrite !in_app_iff in *. simpl. rewrite !in_app_iff. tauto.
 Qed.
 
-(* ---------------------------------------------------------------- the three findings: witnesses *)
-Definition v0 : var := mkVar "y" None None TScalar 1 None None [].
-Definition decl0 (k : kind) : decl := mkDecl k (Some "SI") v0 [] [] [] [] [] [] [Tridimensional].
+Lemma faithful_repaired : forall g d, decl_wf d -> faithful g d (symbols repaired g d).
+Proof.
+  intros g d W. unfold faithful, symbols.
+  assert (F : forall l, (forall v, In v l -> In v (all_vars d)) ->
+                        Forall2 (faithful_var g (dunit d)) l (map (meta repaired g (dunit d) true) l))
+    by (intros l Hl; apply Forall2_map_r; intros v Hv; apply meta_faithful; auto).
+  destruct (dkind d) eqn:K; simpl.
+  - split; [|reflexivity]. split; [reflexivity|]. split; [apply ext_name_ok|]. split.
+    + apply Forall2_map_r. intros v Hv. unfold meta_input; simpl. apply meta_faithful; auto. apply W. apply in_all_vars_mp; auto.
+    + apply F. intros v Hv. apply in_all_vars_mp; auto.
+  - split; [|reflexivity]. split; [reflexivity|]. split; [apply hyps_ok|].
+    split; [apply F; intros; apply in_all_vars_b; auto|]. split; [apply F; intros; apply in_all_vars_b; auto|].
+    split; [apply F; intros; apply in_all_vars_b; auto|]. apply F; intros; apply in_all_vars_b; auto 6.
+Qed.
+
+(* ---------------------------------------------------------------- the findings: witnesses *)
+Definition v0 : var := plain "y" None None TScalar [].
 
 (* D1: input of a material property with @PhysicalBounds and no @Bounds *)
-Definition w1_var : var := mkVar "x" None None TScalar 1 None (Some (Lower (mkDec 0 0))) [].
-Definition w1 : decl := mkDecl MaterialProperty None v0 [w1_var] [] [] [] [] [] [].
+Definition w1_var : var := mkVar "x" None None TScalar 1 None (Some (Lower (mkDec 0 0))) [] [] [] [].
+Definition w1 : decl := mkDecl MaterialProperty None v0 [w1_var] [] [] [] [] [] [] DefaultDSL.
 (* D2: array material property of a behaviour with @Bounds *)
-Definition w2_var : var := mkVar "a" None None TScalar 3 (Some (Both (mkDec 0 0) (mkDec 10 0))) None [].
-Definition w2 : decl := mkDecl Behaviour None v0 [] [w2_var] [] [] [] [] [Tridimensional].
+Definition w2_var : var := mkVar "a" None None TScalar 3 (Some (Both (mkDec 0 0) (mkDec 10 0))) None [] [] [] [].
+Definition w2 : decl := mkDecl Behaviour None v0 [] [w2_var] [] [] [] [] [Tridimensional] DefaultDSL.
 (* D3: state variable attached to the two-sided glossary entry Porosity, unit system SI *)
-Definition w3_var : var := mkVar "f" (Some "Porosity") None TScalar 1 None None [].
+Definition w3_var : var := mkVar "f" (Some "Porosity") None TScalar 1 None None [] [] [] [].
 Definition w3_g : glossary := [mkG "Porosity" "SI" (Some (mkDec 0 0)) (Some (mkDec 1 0))].
-Definition w3 : decl := mkDecl Behaviour (Some "SI") v0 [] [] [w3_var] [] [] [] [Tridimensional].
+Definition w3 : decl := mkDecl Behaviour (Some "SI") v0 [] [] [w3_var] [] [] [] [Tridimensional] DefaultDSL.
+
+Definition scalar_faithful (g : glossary) (u : option string) (v : var) (m : vmeta) : Prop :=
+  vsize v = 1 -> bounds_wf v -> faithful_var g u v m.
+
+Lemma w1_wf : bounds_wf w1_var. Proof. unfold bounds_wf; simpl. split; [now right|]. split; [constructor|]. split; [reflexivity|]. intros i b []. Qed.
+Lemma w2_wf : bounds_wf w2_var. Proof. unfold bounds_wf; simpl. split; [now right|]. split; [constructor|]. split; [reflexivity|]. intros i b []. Qed.
+Lemma w3_wf : bounds_wf w3_var. Proof. unfold bounds_wf; simpl. split; [now right|]. split; [constructor|]. split; [reflexivity|]. intros i b []. Qed.
 
 Lemma d1_refuted : forall vr, mp_phys_needs_bounds vr = true ->
-  ~ Forall2 (fun v m => vsize v = 1 -> faithful_var [] (dunit w1) v m) (dinputs w1) (t_args (symbols vr [] w1)).
+  ~ Forall2 (scalar_faithful [] (dunit w1)) (dinputs w1) (t_args (symbols vr [] w1)).
 Proof.
   intros vr F H. unfold symbols, w1 in H; simpl in H. inversion H; subst. clear H H5.
-  destruct (H3 eq_refl) as (_ & _ & _ & _ & P & _). unfold meta_input in P. rewrite F in P. simpl in P.
-  inversion P; discriminate.
+  destruct (H3 eq_refl w1_wf) as (_ & _ & _ & _ & _ & _ & P & _). specialize (P 0 (Nat.lt_0_1)).
+  unfold meta_input in P. rewrite F in P. simpl in P. inversion P; discriminate.
 Qed.
 
+Definition wf_faithful (g : glossary) (u : option string) (v : var) (m : vmeta) : Prop := bounds_wf v -> faithful_var g u v m.
+
 Lemma d2_refuted : forall vr, array_bounds_unreadable vr = true ->
-  ~ Forall2 (faithful_var [] (dunit w2)) (dmps w2) (t_mps (symbols vr [] w2)).
+  ~ Forall2 (wf_faithful [] (dunit w2)) (dsl_mps (ddsl w2) (dmps w2)) (t_mps (symbols vr [] w2)).
 Proof.
   intros vr F H. unfold symbols, w2 in H; simpl in H. inversion H; subst. clear H H5.
-  destruct H3 as (_ & _ & _ & B & _). unfold meta, hide_arrays in B. rewrite F in B. simpl in B. discriminate.
+  destruct (H3 w2_wf) as (_ & _ & _ & _ & B & _). assert (L : 0 < 3) by repeat constructor. destruct (B 0 L) as (B1 & _).
+  specialize (B1 _ eq_refl). simpl in B1. unfold hide_arrays in B1. rewrite F in B1. simpl in B1. discriminate.
 Qed.
 
 Lemma d3_refuted : forall vr, persistent_not_completed vr = true ->
-  ~ Forall2 (fun v m => vsize v = 1 -> faithful_var w3_g (dunit w3) v m) (dsvs w3 ++ dasvs w3) (t_isvs (symbols vr w3_g w3)).
+  ~ Forall2 (scalar_faithful w3_g (dunit w3)) (dsl_svs (ddsl w3) (dsvs w3) ++ dasvs w3) (t_isvs (symbols vr w3_g w3)).
 Proof.
   intros vr F H. unfold symbols, w3 in H; simpl in H. rewrite F in H. simpl in H. inversion H; subst. clear H H5.
-  destruct (H3 eq_refl) as (_ & _ & _ & _ & P & _). simpl in P. rewrite hide_scalar in P by reflexivity.
-  apply phys_spec_complete in P. vm_compute in P. discriminate.
+  destruct (H3 eq_refl w3_wf) as (_ & _ & _ & _ & _ & _ & P & _). specialize (P 0 (Nat.lt_0_1)). simpl in P.
+  rewrite hide_scalar in P by reflexivity. apply phys_spec_complete in P. vm_compute in P. discriminate.
 Qed.
 
 (* ---------------------------------------------------------------- the table, any variant *)
-Definition scalar_faithful (g : glossary) (u : option string) (v : var) (m : vmeta) : Prop :=
-  vsize v = 1 -> faithful_var g u v m.
-
 Lemma names_any : forall vr g d, let T := symbols vr g d in
   match dkind d with
   | MaterialProperty =>
       t_kind T = 0%Z /\ ext_name_spec (doutput d) (t_output T) /\ Forall2 faithful_var_names (dinputs d) (t_args T) /\
       Forall2 faithful_var_names (dparams d) (t_params T)
   | Behaviour =>
-      t_kind T = 1%Z /\ hyps_spec (dhyps d) (t_hyps T) /\ Forall2 faithful_var_names (dmps d) (t_mps T) /\
-      Forall2 faithful_var_names (dsvs d ++ dasvs d) (t_isvs T) /\ Forall2 faithful_var_names (desvs d) (t_esvs T) /\
-      Forall2 faithful_var_names (dparams d ++ builtin_parameters) (t_params T)
+      t_kind T = 1%Z /\ hyps_spec (dhyps d) (t_hyps T) /\ Forall2 faithful_var_names (dsl_mps (ddsl d) (dmps d)) (t_mps T) /\
+      Forall2 faithful_var_names (dsl_svs (ddsl d) (dsvs d) ++ dasvs d) (t_isvs T) /\ Forall2 faithful_var_names (desvs d) (t_esvs T) /\
+      Forall2 faithful_var_names (dsl_params (ddsl d) (dparams d)) (t_params T)
   end /\ t_unit T = match dunit d with Some s => s | None => "" end.
 Proof.
   intros vr g d T. subst T. unfold symbols.
   assert (F : forall c l, Forall2 faithful_var_names l (map (meta vr g (dunit d) c) l))
-    by (intros c l; apply Forall2_map_r; intros v; apply meta_names).
+    by (intros c l; apply Forall2_map_r; intros v _; apply meta_names).
   destruct (dkind d); simpl.
   - split; [|reflexivity]. split; [reflexivity|]. split; [apply ext_name_ok|]. split; [|apply F].
-    apply Forall2_map_r. intros v. apply meta_input_names.
+    apply Forall2_map_r. intros v _. apply meta_input_names.
   - split; [|reflexivity]. split; [reflexivity|]. split; [apply hyps_ok|]. repeat (split; [apply F|]). apply F.
 Qed.
 
-(* containers that none of the three findings touches, non-array variables: faithful whatever the variant *)
+(* containers that none of the first three findings touches, non-array variables: faithful whatever the variant *)
 Lemma scalars_any : forall vr g d, let T := symbols vr g d in
   match dkind d with
   | MaterialProperty => Forall2 (scalar_faithful g (dunit d)) (dparams d) (t_params T)
   | Behaviour =>
-      Forall2 (scalar_faithful g (dunit d)) (dmps d) (t_mps T) /\
+      Forall2 (scalar_faithful g (dunit d)) (dsl_mps (ddsl d) (dmps d)) (t_mps T) /\
       Forall2 (scalar_faithful g (dunit d)) (desvs d) (t_esvs T) /\
-      Forall2 (scalar_faithful g (dunit d)) (dparams d ++ builtin_parameters) (t_params T) /\
+      Forall2 (scalar_faithful g (dunit d)) (dsl_params (ddsl d) (dparams d)) (t_params T) /\
       (exists m, t_temperature T = Some m /\ faithful_var g (dunit d) temperature_var m)
   end.
 Proof.
   intros vr g d T. subst T. unfold symbols.
   assert (F : forall l, Forall2 (scalar_faithful g (dunit d)) l (map (meta vr g (dunit d) true) l))
-    by (intros l; apply Forall2_map_r; intros v Hs; now apply meta_faithful_scalar).
+    by (intros l; apply Forall2_map_r; intros v _ Hs W; now apply meta_faithful_scalar).
   destruct (dkind d); simpl; [apply F|]. repeat (split; [apply F|]).
-  eexists. split; [reflexivity|]. now apply meta_faithful_scalar.
+  eexists. split; [reflexivity|]. apply meta_faithful_scalar; [reflexivity|apply plain_wf].
 Qed.
 
 Lemma sizes_any : forall vr g d, dkind d = Behaviour -> let T := symbols vr g d in
-  length (expanded_names (t_mps T)) = sum_sizes (dmps d) /\
-  length (expanded_names (t_isvs T)) = sum_sizes (dsvs d ++ dasvs d) /\
-  length (expanded_types (t_isvs T)) = sum_sizes (dsvs d ++ dasvs d) /\
+  length (expanded_names (t_mps T)) = sum_sizes (dsl_mps (ddsl d) (dmps d)) /\
+  length (expanded_names (t_isvs T)) = sum_sizes (dsl_svs (ddsl d) (dsvs d) ++ dasvs d) /\
+  length (expanded_types (t_isvs T)) = sum_sizes (dsl_svs (ddsl d) (dsvs d) ++ dasvs d) /\
   length (expanded_names (t_esvs T)) = sum_sizes (desvs d) /\
   length (expanded_types (t_esvs T)) = sum_sizes (desvs d) /\
-  length (expanded_names (t_params T)) = sum_sizes (dparams d ++ builtin_parameters) /\
-  length (expanded_types (t_params T)) = sum_sizes (dparams d ++ builtin_parameters).
+  length (expanded_names (t_params T)) = sum_sizes (dsl_params (ddsl d) (dparams d)) /\
+  length (expanded_types (t_params T)) = sum_sizes (dsl_params (ddsl d) (dparams d)).
 Proof.
   intros vr g d K T. subst T. unfold symbols. rewrite K. simpl.
   repeat split; auto using expanded_names_length, expanded_types_length.
@@ -300,24 +365,24 @@ Qed.
 Lemma d1_holds : forall vr g d, mp_phys_needs_bounds vr = false -> dkind d = MaterialProperty ->
   Forall2 (scalar_faithful g (dunit d)) (dinputs d) (t_args (symbols vr g d)).
 Proof.
-  intros vr g d F K. unfold symbols. rewrite K. simpl. apply Forall2_map_r. intros v Hs. now apply meta_input_faithful_scalar.
+  intros vr g d F K. unfold symbols. rewrite K. simpl. apply Forall2_map_r. intros v _ Hs W. now apply meta_input_faithful_scalar.
 Qed.
 
 Lemma d2_holds : forall vr g d, array_bounds_unreadable vr = false -> dkind d = Behaviour -> let T := symbols vr g d in
-  Forall2 (faithful_var g (dunit d)) (dmps d) (t_mps T) /\ Forall2 (faithful_var g (dunit d)) (desvs d) (t_esvs T) /\
-  Forall2 (faithful_var g (dunit d)) (dparams d ++ builtin_parameters) (t_params T).
+  Forall2 (wf_faithful g (dunit d)) (dsl_mps (ddsl d) (dmps d)) (t_mps T) /\ Forall2 (wf_faithful g (dunit d)) (desvs d) (t_esvs T) /\
+  Forall2 (wf_faithful g (dunit d)) (dsl_params (ddsl d) (dparams d)) (t_params T).
 Proof.
   intros vr g d F K T. subst T. unfold symbols. rewrite K. simpl.
-  repeat split; apply Forall2_map_r; intros v; now apply meta_faithful.
+  repeat split; apply Forall2_map_r; intros v _ W; now apply meta_faithful.
 Qed.
 
 Lemma d3_holds : forall vr g d, persistent_not_completed vr = false -> dkind d = Behaviour ->
-  Forall2 (scalar_faithful g (dunit d)) (dsvs d ++ dasvs d) (t_isvs (symbols vr g d)).
+  Forall2 (scalar_faithful g (dunit d)) (dsl_svs (ddsl d) (dsvs d) ++ dasvs d) (t_isvs (symbols vr g d)).
 Proof.
-  intros vr g d F K. unfold symbols. rewrite K, F. simpl. apply Forall2_map_r. intros v Hs. now apply meta_faithful_scalar.
+  intros vr g d F K. unfold symbols. rewrite K, F. simpl. apply Forall2_map_r. intros v _ Hs W. now apply meta_faithful_scalar.
 Qed.
 
-(* once repaired, nothing else changes: the three flags only touch bounds entries *)
+(* once repaired, nothing else changes: the flags only touch bounds entries *)
 Lemma repair_changes_only_bounds : forall vr g d,
   map (fun m => (m_ext m, m_code m, m_size m, m_def m)) (t_isvs (symbols vr g d)) =
   map (fun m => (m_ext m, m_code m, m_size m, m_def m)) (t_isvs (symbols repaired g d)) /\
@@ -328,3 +393,358 @@ Proof.
   intros vr g d. unfold symbols. destruct (dkind d); simpl; repeat split; rewrite ?map_map; simpl; auto.
   apply map_ext. intros v. unfold meta_input. destruct (mp_phys_needs_bounds vr); simpl; auto. destruct (vbounds v); reflexivity.
 Qed.
+
+(* ---------------------------------------------------------------- parameters: setParameter = editing the default value *)
+Lemma map_nth_seq : forall (l : list dec), map (fun i => nth i l zero) (seq 0 (length l)) = l.
+Proof.
+  intros l. apply (nth_ext _ _ zero zero); [now rewrite map_length, seq_length|].
+  intros n Hn. rewrite map_length, seq_length in Hn. now rewrite nth_map_seq.
+Qed.
+
+Lemma pad_length : forall v, length (pad v) = vsize v.
+Proof. intros. unfold pad. now rewrite map_length, seq_length. Qed.
+
+Lemma set_nth_length : forall (A : Type) i (x : A) l, i < length l -> length (set_nth i x l) = length l.
+Proof.
+  intros A i x l H. unfold set_nth. rewrite app_length, firstn_length_le by lia.
+  change (length (x :: skipn (Datatypes.S i) l)) with (Datatypes.S (length (skipn (Datatypes.S i) l))). rewrite skipn_length. lia.
+Qed.
+
+Lemma matches_index : forall h k key s, slot_matches h k key s = true -> key_index key < length (s_vals s).
+Proof.
+  intros h k [n [i|]] s H; unfold slot_matches, key_index in *; simpl in *.
+  - rewrite !andb_true_iff, orb_true_iff in H. destruct H as (_ & [H|H]).
+    + rewrite !andb_true_iff in H. destruct H as (_ & _ & H). now apply Nat.ltb_lt in H.
+    + destruct (s_alias s); discriminate.
+  - rewrite !andb_true_iff, orb_true_iff in H. destruct H as (_ & [H|H]).
+    + rewrite andb_true_iff in H. destruct H as (_ & H). apply Nat.eqb_eq in H. lia.
+    + destruct (s_alias s); [|discriminate]. rewrite andb_true_iff in H. destruct H as (_ & H). apply Nat.eqb_eq in H. lia.
+Qed.
+
+Lemma slot_of_with_default : forall mp v i x, i < vsize v ->
+  slot_of mp (with_default v i x) =
+  mkSlot (s_owner (slot_of mp v)) (s_name (slot_of mp v)) (s_alias (slot_of mp v)) (s_kind (slot_of mp v))
+         (set_nth i x (s_vals (slot_of mp v))).
+Proof.
+  intros mp v i x H. unfold slot_of, with_default; simpl. f_equal. unfold pad at 1; simpl.
+  assert (L : vsize v = length (set_nth i x (pad v))) by (rewrite set_nth_length; rewrite pad_length; auto).
+  rewrite L at 1. apply map_nth_seq.
+Qed.
+
+Lemma set_param_store_of : forall mp params h k key x,
+  set_param (store_of mp params) h k key x = option_map (store_of mp) (set_default mp params h k key x).
+Proof.
+  induction params as [|v r IH]; intros h k key x; simpl; [reflexivity|].
+  destruct (slot_matches h k key (slot_of mp v)) eqn:M; simpl.
+  - f_equal. f_equal. symmetry. apply slot_of_with_default. apply matches_index in M. simpl in M. now rewrite pad_length in M.
+  - rewrite IH. destruct (set_default mp r h k key x); reflexivity.
+Qed.
+
+Lemma load_file_store_of : forall mp lines params h,
+  load_file (store_of mp params) h lines = option_map (store_of mp) (edit_defaults mp params h lines).
+Proof.
+  induction lines as [|[[k key] x] r IH]; intros params h; simpl; [reflexivity|].
+  rewrite set_param_store_of. destruct (set_default mp params h k key x); simpl; [apply IH|reflexivity].
+Qed.
+
+(* the call fails exactly when no parameter of that type, visible under that hypothesis, has that name *)
+Lemma set_param_none : forall st h k key x,
+  set_param st h k key x = None <-> forall s, In s st -> slot_matches h k key s = false.
+Proof.
+  induction st as [|s r IH]; intros h k key x; simpl; [split; [intros _ s []|reflexivity]|].
+  destruct (slot_matches h k key s) eqn:M.
+  - split; [discriminate|]. intros H. rewrite (H s) in M by now left. discriminate.
+  - destruct (set_param r h k key x) eqn:E; simpl.
+    + split; [discriminate|]. intros H. assert (N : set_param r h k key x = None) by (apply IH; intros; apply H; now right). congruence.
+    + split; [|reflexivity]. intros _ s0 [<-|Hin]; [assumption|]. apply (proj1 (IH h k key x) E). assumption.
+Qed.
+
+(* exactly one member changes: the first one that matches, at the index given by the key *)
+Lemma set_param_some : forall st h k key x st',
+  set_param st h k key x = Some st' ->
+  exists l1 s l2, st = l1 ++ s :: l2 /\ (forall s0, In s0 l1 -> slot_matches h k key s0 = false) /\ slot_matches h k key s = true /\
+                  st' = l1 ++ mkSlot (s_owner s) (s_name s) (s_alias s) (s_kind s) (set_nth (key_index key) x (s_vals s)) :: l2.
+Proof.
+  induction st as [|s r IH]; intros h k key x st' H; simpl in H; [discriminate|].
+  destruct (slot_matches h k key s) eqn:M.
+  - inversion H; subst. exists [], s, r. simpl. repeat split; auto. intros s0 [].
+  - destruct (set_param r h k key x) eqn:E; simpl in H; [|discriminate]. inversion H; subst.
+    destruct (IH _ _ _ _ _ E) as (l1 & s1 & l2 & -> & N & M1 & ->). exists (s :: l1), s1, l2. simpl. repeat split; auto.
+    intros s0 [<-|Hin]; auto.
+Qed.
+
+Lemma set_recompile : forall mp params h k key x st',
+  set_param (store_of mp params) h k key x = Some st' ->
+  exists params', set_default mp params h k key x = Some params' /\ st' = store_of mp params' /\
+                  forall h', view st' h' = view (store_of mp params') h'.
+Proof.
+  intros mp params h k key x st' H. rewrite set_param_store_of in H.
+  destruct (set_default mp params h k key x) as [p'|]; simpl in H; [|discriminate]. inversion H; subst. exists p'. auto.
+Qed.
+
+Lemma file_recompile : forall mp params h lines st',
+  load_file (store_of mp params) h lines = Some st' ->
+  exists params', edit_defaults mp params h lines = Some params' /\ st' = store_of mp params' /\
+                  forall h', view st' h' = view (store_of mp params') h'.
+Proof.
+  intros mp params h lines st' H. rewrite load_file_store_of in H.
+  destruct (edit_defaults mp params h lines) as [p'|]; simpl in H; [|discriminate]. inversion H; subst. exists p'. auto.
+Qed.
+
+Lemma nth_set_nth : forall (A : Type) (l : list A) i x j d, i < length l ->
+  nth j (set_nth i x l) d = if Nat.eqb j i then x else nth j l d.
+Proof.
+  induction l as [|a l IH]; intros i x j d H; simpl in H; [lia|]. destruct i as [|i].
+  - unfold set_nth. simpl. destruct j; reflexivity.
+  - change (set_nth (Datatypes.S i) x (a :: l)) with (a :: set_nth i x l). destruct j as [|j]; [reflexivity|].
+    simpl. apply IH. lia.
+Qed.
+
+(* editing a default value touches nothing but that default value *)
+Lemma with_default_same_declaration : forall v i x,
+  let w := with_default v i x in
+  vname w = vname v /\ vgloss w = vgloss v /\ ventry w = ventry v /\ vty w = vty v /\ vsize w = vsize v /\ vbounds w = vbounds v /\
+  vphys w = vphys v /\ vebounds w = vebounds v /\ vhyps w = vhyps v /\
+  (i < vsize v -> nth i (vdefault w) zero = x /\ forall j, j <> i -> nth j (vdefault w) zero = nth j (pad v) zero).
+Proof.
+  intros v i x w. subst w. unfold with_default; simpl. do 9 (split; [reflexivity|]). intros H.
+  split; [|intros j Hj]; rewrite nth_set_nth by (rewrite pad_length; assumption).
+  - now rewrite Nat.eqb_refl.
+  - apply Nat.eqb_neq in Hj. now rewrite Hj.
+Qed.
+
+(* ---------------------------------------------------------------- hypothesis-specialised declarations *)
+Lemma declared_for_ok : forall h v, declared_for h v = true <-> declared_for_spec h v.
+Proof.
+  intros h v. unfold declared_for, declared_for_spec. destruct (vhyps v) as [|a l]; [tauto|].
+  rewrite existsb_exists. split.
+  - intros (x & Hx & E). apply hyp_eqb_eq in E. subst. now right.
+  - intros [H|H]; [discriminate|]. exists h. split; [assumption|now apply hyp_eqb_eq].
+Qed.
+
+Lemma filter_sublist : forall (A : Type) (f : A -> bool) l, sublist (filter f l) l.
+Proof. induction l; simpl; [constructor|]. destruct (f a); now constructor. Qed.
+
+Lemma restrict_container : forall h l,
+  sublist (filter (declared_for h) l) l /\ forall v, In v (filter (declared_for h) l) <-> In v l /\ declared_for_spec h v.
+Proof. intros h l. split; [apply filter_sublist|]. intros v. rewrite filter_In, declared_for_ok. tauto. Qed.
+
+Lemma restrict_ok : forall h d, let r := restrict h d in
+  dkind r = dkind d /\ dunit r = dunit d /\ dhyps r = dhyps d /\ ddsl r = ddsl d /\
+  (sublist (dmps r) (dmps d) /\ forall v, In v (dmps r) <-> In v (dmps d) /\ declared_for_spec h v) /\
+  (sublist (dsvs r) (dsvs d) /\ forall v, In v (dsvs r) <-> In v (dsvs d) /\ declared_for_spec h v) /\
+  (sublist (dasvs r) (dasvs d) /\ forall v, In v (dasvs r) <-> In v (dasvs d) /\ declared_for_spec h v) /\
+  (sublist (desvs r) (desvs d) /\ forall v, In v (desvs r) <-> In v (desvs d) /\ declared_for_spec h v) /\
+  (sublist (dparams r) (dparams d) /\ forall v, In v (dparams r) <-> In v (dparams d) /\ declared_for_spec h v).
+Proof. intros h d r. subst r. unfold restrict; simpl. do 4 (split; [reflexivity|]). do 4 (split; [apply restrict_container|]). apply restrict_container. Qed.
+
+(* ---------------------------------------------------------------- the DSLs add declarations, they never drop or reorder the user's *)
+Lemma sublist_refl : forall (A : Type) (l : list A), sublist l l.
+Proof. induction l; now constructor. Qed.
+
+Lemma sublist_app_r : forall (A : Type) (x l1 l2 : list A), sublist l1 l2 -> sublist l1 (x ++ l2).
+Proof. induction x; simpl; intros; [assumption|]. constructor. now apply IHx. Qed.
+
+Lemma sublist_app : forall (A : Type) (a b c e : list A), sublist a b -> sublist c e -> sublist (a ++ c) (b ++ e).
+Proof. intros A a b c e H. induction H; simpl; intros; [now apply sublist_app_r | constructor; auto | constructor; auto]. Qed.
+
+Lemma sublist_app_l : forall (A : Type) (l x : list A), sublist l (l ++ x).
+Proof. intros. rewrite <- (app_nil_r l) at 1. apply sublist_app; [apply sublist_refl|constructor]. Qed.
+
+Lemma dsl_keeps : forall s l, sublist l (dsl_params s l) /\ sublist l (dsl_mps s l) /\ sublist l (dsl_svs s l).
+Proof.
+  intros s l. destruct s as [|o]; simpl; repeat split; try apply sublist_refl; try apply sublist_app_l.
+  - unfold dsl_params. rewrite <- (app_nil_r l) at 1. apply sublist_app; [|constructor].
+    apply sublist_app_r. rewrite <- (firstn_skipn (i_brick_pos o) l) at 1.
+    apply sublist_app; [apply sublist_refl|]. apply sublist_app_r. apply sublist_app_l.
+  - constructor. apply sublist_refl.
+Qed.
+
+(* ---------------------------------------------------------------- accepted declarations *)
+Lemma dec_leb_le : forall a b, dec_leb a b = true -> dec_le a b.
+Proof. intros a b H. unfold dec_leb in H. unfold dec_le. now apply Z.leb_le. Qed.
+
+Lemma contained_within : forall b p, contained b p = true -> within b p.
+Proof.
+  intros [l|u|l u] [pl|pu|pl pu]; simpl; intros H; try discriminate; try (now apply dec_leb_le);
+    apply andb_true_iff in H; destruct H; split; now apply dec_leb_le.
+Qed.
+
+Lemma nodupb_nat : forall l, nodupb Nat.eqb l = true -> NoDup l.
+Proof.
+  induction l as [|a l IH]; simpl; intros H; constructor; apply andb_true_iff in H; destruct H as [H1 H2]; auto.
+  intros Hin. apply negb_true_iff in H1. assert (E : existsb (Nat.eqb a) l = true) by (apply existsb_exists; exists a; split; auto; apply Nat.eqb_refl).
+  congruence.
+Qed.
+
+Lemma elem_decl_some : forall l i b, elem_decl l i = Some b -> In (i, b) l.
+Proof.
+  intros l i b E. unfold elem_decl in E. destruct (find _ l) as [[j c]|] eqn:F; [|discriminate]. apply find_some in F.
+  destruct F as [F1 F2]. simpl in *. apply Nat.eqb_eq in F2. inversion E. now subst.
+Qed.
+
+Lemma var_bounds_ok_wf : forall vr g u ar v, index_off_by_one vr = false -> var_bounds_ok vr g u ar v = true -> bounds_wf v.
+Proof.
+  intros vr g u ar v O H. unfold var_bounds_ok in H. rewrite O in H. rewrite !andb_true_iff in H. destruct H as (((_ & _) & C) & D).
+  unfold bounds_wf. destruct (vephys v); [|discriminate]. destruct (vebounds v) as [|q l] eqn:E.
+  - split; [now right|]. split; [constructor|]. split; [reflexivity|]. intros i b [].
+  - rewrite !andb_true_iff in D. destruct D as ((((_ & _) & V) & ND) & F).
+    split; [left; destruct (vbounds v); [discriminate|reflexivity]|]. split; [now apply nodupb_nat|]. split; [reflexivity|].
+    intros i b Hin. rewrite forallb_forall in F. specialize (F _ Hin). cbv beta in F. rewrite !andb_true_iff in F. destruct F as ((F & _) & _).
+    simpl in F. now apply Nat.ltb_lt in F.
+Qed.
+
+Lemma var_bounds_ok_within : forall vr g u ar v i b p, var_bounds_ok vr g u ar v = true ->
+  elem_bounds v i = Some b -> complete g u v = Some p -> within b p.
+Proof.
+  intros vr g u ar v i b p H EB CP. unfold var_bounds_ok in H. rewrite !andb_true_iff in H. destruct H as (((A & _) & _) & D).
+  unfold elem_bounds in EB. destruct (vbounds v) as [c|] eqn:V.
+  - inversion EB; subst. rewrite CP in A. apply andb_true_iff in A. destruct A as [_ A]. now apply contained_within.
+  - apply elem_decl_some in EB. destruct (vebounds v) as [|q l] eqn:E; [contradiction|].
+    rewrite !andb_true_iff in D. destruct D as (_ & F). rewrite forallb_forall in F. specialize (F _ EB). cbv beta in F.
+    rewrite !andb_true_iff in F. destruct F as (_ & F). simpl in F. rewrite CP in F. now apply contained_within.
+Qed.
+
+Lemma accepts_vars : forall vr g d v, accepts vr g d = true -> In v (all_vars d) -> exists ar, var_bounds_ok vr g (dunit d) ar v = true.
+Proof.
+  intros vr g d v H Hin. unfold accepts in H. apply andb_true_iff in H. destruct H as [_ H]. unfold all_vars in *.
+  destruct (dkind d).
+  - rewrite !andb_true_iff in H. destruct H as (((_ & B) & P) & _). exists false. simpl in Hin. rewrite in_app_iff in Hin.
+    rewrite forallb_forall in B, P. destruct Hin as [<-|[Hin|Hin]]; [apply B; now left | apply B; now right|].
+    specialize (P _ Hin). cbv beta in P. apply andb_true_iff in P. destruct P as [_ P]. unfold var_bounds_ok.
+    destruct (vbounds v); [discriminate|]. destruct (vphys v); [discriminate|]. destruct (vebounds v); [|discriminate].
+    destruct (vephys v); [reflexivity|discriminate].
+  - rewrite !andb_true_iff in H. destruct H as (((((_ & _) & B) & _) & _) & _). exists true. rewrite forallb_forall in B.
+    now apply B.
+Qed.
+
+Lemma accepts_wf : forall vr g d, index_off_by_one vr = false -> accepts vr g d = true -> decl_wf d.
+Proof. intros vr g d O H v Hin. destruct (accepts_vars _ _ _ _ H Hin) as [ar A]. eapply var_bounds_ok_wf; eauto. Qed.
+
+Lemma accepts_within : forall vr g d v i b p, accepts vr g d = true -> In v (all_vars d) ->
+  elem_bounds v i = Some b -> complete g (dunit d) v = Some p -> within b p.
+Proof. intros vr g d v i b p H Hin. destruct (accepts_vars _ _ _ _ H Hin) as [ar A]. eapply var_bounds_ok_within; eauto. Qed.
+
+Lemma no_clash_nodup : forall l, no_clash false l = true -> NoDup (map ext_name l) /\ NoDup (map vname l).
+Proof.
+  induction l as [|v r IH]; simpl; intros H; [split; constructor|]. apply andb_true_iff in H. destruct H as [H1 H2].
+  destruct (IH H2) as [I1 I2]. apply negb_true_iff in H1.
+  split; constructor; auto; intros Hin; apply in_map_iff in Hin; destruct Hin as (w & E & Hw);
+    (assert (X : existsb (clash false v) r = true); [apply existsb_exists; exists w; split; auto; unfold clash; rewrite E|congruence]).
+  - rewrite (String.eqb_refl (ext_name v)). now rewrite !orb_true_r.
+  - now rewrite (String.eqb_refl (vname v)).
+Qed.
+
+Lemma filter_incl : forall (A : Type) (f : A -> bool) l v, In v (filter f l) -> In v l.
+Proof. intros. apply filter_In in H. tauto. Qed.
+
+Lemma all_vars_restrict : forall h d v, In v (all_vars (restrict h d)) -> In v (all_vars d).
+Proof.
+  intros h d v. unfold all_vars. change (dkind (restrict h d)) with (dkind d).
+  unfold restrict; cbn [doutput dinputs dparams dmps dsvs dasvs desvs ddsl]. destruct (dkind d).
+  { intros [H|H]; [now left|right]. rewrite in_app_iff in *. destruct H; eauto using filter_incl. }
+  assert (P : forall s l, In v (dsl_params s (filter (declared_for h) l)) -> In v (dsl_params s l)).
+  { intros s l. unfold dsl_params. destruct s as [|o]; rewrite !in_app_iff; [intros [H|H]; [left; eapply filter_incl; eauto|now right]|].
+    assert (Q : forall n, In v (firstn n (filter (declared_for h) l)) \/ In v (skipn n (filter (declared_for h) l)) ->
+                          In v (firstn (i_brick_pos o) l) \/ In v (skipn (i_brick_pos o) l)).
+    { intros n HH. apply in_app_or. rewrite firstn_skipn. apply (filter_incl _ (declared_for h)).
+      rewrite <- (firstn_skipn n (filter (declared_for h) l)). now apply in_or_app. }
+    intros [[H|[H|[H|[H|H]]]]|H]; auto 7.
+    - destruct (Q _ (or_introl H)); auto 7.
+    - destruct (Q _ (or_intror H)); auto 7. }
+  assert (M : forall s l, In v (dsl_mps s (filter (declared_for h) l)) -> In v (dsl_mps s l)).
+  { intros s l. destruct s; simpl; [apply filter_incl|]. rewrite !in_app_iff. intros [H|H]; [left; eapply filter_incl; eauto|now right]. }
+  assert (S : forall s l, In v (dsl_svs s (filter (declared_for h) l)) -> In v (dsl_svs s l)).
+  { intros s l. destruct s; simpl; [apply filter_incl|]. intros [H|H]; [now left|right; eapply filter_incl; eauto]. }
+  rewrite !in_app_iff. simpl. rewrite !in_app_iff.
+  intros [H|[H|[H|[H|[H|H]]]]]; eauto 10 using filter_incl.
+Qed.
+
+Lemma decl_wf_restrict : forall h d, decl_wf d -> decl_wf (restrict h d).
+Proof. intros h d W v Hin. apply W. eapply all_vars_restrict; eauto. Qed.
+
+(* an accepted declaration is exported faithfully, under every declared hypothesis *)
+Lemma accepts_faithful : forall g d, accepts repaired g d = true ->
+  faithful g d (symbols repaired g d) /\ forall h, faithful g (restrict h d) (symbols_at repaired g d h).
+Proof.
+  intros g d H. assert (W : decl_wf d) by (apply (accepts_wf repaired g d eq_refl H)).
+  split; [now apply faithful_repaired|]. intros h. unfold symbols_at. apply faithful_repaired. now apply decl_wf_restrict.
+Qed.
+
+Lemma nodup_app_r : forall (A : Type) (l1 l2 : list A), NoDup (l1 ++ l2) -> NoDup l2.
+Proof. induction l1; simpl; intros; [assumption|]. inversion H; auto. Qed.
+
+(* names: within the scope of a hypothesis no external name is used twice, in particular by two parameters *)
+Lemma accepts_names : forall vr g d, accepts vr g d = true ->
+  match dkind d with
+  | MaterialProperty => mp_names_unchecked vr = false -> NoDup (map ext_name (all_vars d)) /\ NoDup (map ext_name (dparams d))
+  | Behaviour => forall h, In h (dhyps d) ->
+      NoDup (map ext_name (all_vars (restrict h d))) /\ NoDup (map ext_name (params_of (restrict h d)))
+  end.
+Proof.
+  intros vr g d H. unfold accepts in H. apply andb_true_iff in H. destruct H as [_ H]. destruct (dkind d) eqn:K.
+  - intros O. rewrite O in H. rewrite !andb_true_iff in H. destruct H as (_ & C). destruct (no_clash_nodup _ C) as [N _].
+    split; [assumption|]. unfold all_vars in N. rewrite K in N. simpl in N. inversion N; subst. rewrite map_app in H2. now apply nodup_app_r in H2.
+  - intros h Hh. rewrite !andb_true_iff in H. destruct H as (_ & C). rewrite forallb_forall in C. specialize (C _ Hh).
+    destruct (no_clash_nodup _ C) as [N _]. split; [assumption|]. unfold params_of, all_vars in *.
+    change (dkind (restrict h d)) with (dkind d) in *. rewrite K in *. rewrite !map_app in N.
+    do 3 apply nodup_app_r in N. simpl in N. inversion N; subst. rewrite map_app in H2. now apply nodup_app_r in H2.
+Qed.
+
+(* E1: `@Bounds r[2] in [0:1];` on `real r[2]` *)
+Definition w4_var : var := mkVar "r" None None TScalar 2 None None [] [(2, Both (mkDec 0 0) (mkDec 1 0))] [] [].
+Definition w4 : decl := mkDecl Behaviour None v0 [] [] [w4_var] [] [] [] [Tridimensional] DefaultDSL.
+
+Lemma e1_refuted : forall vr, index_off_by_one vr = true -> accepts vr [] w4 = true /\ ~ decl_wf w4.
+Proof.
+  intros [a b c o n] H. simpl in H. subst o. split; [reflexivity|]. intros W.
+  assert (I : In w4_var (all_vars w4)) by (simpl; auto). destruct (W _ I) as (_ & _ & _ & L). specialize (L 2 _ (or_introl eq_refl)).
+  simpl in L. lia.
+Qed.
+
+(* E2: `@Input real x; @Input real z; z.setEntryName("x");` *)
+Definition w5_x : var := plain "x" None None TScalar [].
+Definition w5_z : var := plain "z" None (Some "x") TScalar [].
+Definition w5 : decl := mkDecl MaterialProperty None v0 [w5_x; w5_z] [] [] [] [] [] [] DefaultDSL.
+
+Lemma e2_refuted : forall vr, mp_names_unchecked vr = true -> accepts vr [] w5 = true /\ ~ NoDup (map ext_name (all_vars w5)).
+Proof.
+  intros [a b c o n] H. simpl in H. subst n. split; [reflexivity|]. intros N. simpl in N. inversion N; subst. inversion H2; subst.
+  apply H3. now left.
+Qed.
+
+(* ---------------------------------------------------------------- existential forms of the refutations *)
+Lemma d1_refuted_ex : forall vr, mp_phys_needs_bounds vr = true ->
+  exists g d, dkind d = MaterialProperty /\ ~ Forall2 (scalar_faithful g (dunit d)) (dinputs d) (t_args (symbols vr g d)).
+Proof. intros vr F. exists nil, w1. split; [reflexivity | exact (d1_refuted vr F)]. Qed.
+
+Lemma d2_refuted_ex : forall vr, array_bounds_unreadable vr = true ->
+  exists g d, dkind d = Behaviour /\ ~ Forall2 (wf_faithful g (dunit d)) (dsl_mps (ddsl d) (dmps d)) (t_mps (symbols vr g d)).
+Proof. intros vr F. exists nil, w2. split; [reflexivity | exact (d2_refuted vr F)]. Qed.
+
+Lemma d3_refuted_ex : forall vr, persistent_not_completed vr = true ->
+  exists g d, dkind d = Behaviour /\
+              ~ Forall2 (scalar_faithful g (dunit d)) (dsl_svs (ddsl d) (dsvs d) ++ dasvs d) (t_isvs (symbols vr g d)).
+Proof. intros vr F. exists w3_g, w3. split; [reflexivity | exact (d3_refuted vr F)]. Qed.
+
+Lemma e1_refuted_ex : forall vr, index_off_by_one vr = true -> exists g d, accepts vr g d = true /\ ~ decl_wf d.
+Proof. intros vr F. exists nil, w4. exact (e1_refuted vr F). Qed.
+
+Lemma e2_refuted_ex : forall vr, mp_names_unchecked vr = true ->
+  exists g d, dkind d = MaterialProperty /\ accepts vr g d = true /\ ~ NoDup (map ext_name (all_vars d)).
+Proof. intros vr F. exists nil, w5. split; [reflexivity | exact (e2_refuted vr F)]. Qed.
+
+Lemma e2_holds : forall vr g d, mp_names_unchecked vr = false -> dkind d = MaterialProperty -> accepts vr g d = true ->
+  NoDup (map ext_name (all_vars d)) /\ NoDup (map ext_name (dparams d)).
+Proof. intros vr g d F K H. pose proof (accepts_names vr g d H) as N. rewrite K in N. now apply N. Qed.
+
+Lemma accepts_names_behaviour : forall vr g d, dkind d = Behaviour -> accepts vr g d = true -> forall h, In h (dhyps d) ->
+  NoDup (map ext_name (all_vars (restrict h d))) /\ NoDup (map ext_name (params_of (restrict h d))).
+Proof. intros vr g d K H. pose proof (accepts_names vr g d H) as N. now rewrite K in N. Qed.
+
+Lemma per_element_roundtrip : forall vr g u v, array_bounds_unreadable vr = false -> bounds_wf v ->
+  forall i, i < vsize v -> elem_bounds_spec v i (nth i (m_bounds (meta vr g u true v)) None).
+Proof. intros vr g u v F W. exact (proj1 (proj2 (proj2 (proj2 (proj2 (meta_faithful vr g u v F W)))))). Qed.
+
+Lemma faithful_at_hypotheses : forall g d, decl_wf d -> forall h, faithful g (restrict h d) (symbols_at repaired g d h).
+Proof. intros g d W h. unfold symbols_at. apply faithful_repaired. now apply decl_wf_restrict. Qed.
